@@ -139,7 +139,15 @@ def ensure_tool():
     src = os.path.join(VERIF, "tools", "ajx", "ajx.cc")
     if os.path.exists(AJX) and os.path.getmtime(AJX) >= os.path.getmtime(src):
         return
-    build_tool()
+    os.makedirs(os.path.join(VERIF, ".cache"), exist_ok=True)
+    lock = open(os.path.join(VERIF, ".cache", ".toollock"), "w")
+    fcntl.flock(lock, fcntl.LOCK_EX)
+    try:
+        if not (os.path.exists(AJX) and os.path.getmtime(AJX) >= os.path.getmtime(src)):
+            build_tool()
+    finally:
+        fcntl.flock(lock, fcntl.LOCK_UN)
+        lock.close()
 
 
 def build_tool():
